@@ -64,7 +64,9 @@ CLAIMED = {
         "old tree. Tied to /repo by random histories with hooks on every kind of setting: destructor log compared "
         "call by call with the model and, independently, with the hooks that left the dumped real tree. The string "
         "lifetime clause is pointer-level: stored strings are values in the model (copy by construction), and the "
-        "harness re-reads every handed-out pointer after every later call under ASan while a live setting holds it.",
+        "harness re-reads every handed-out pointer after every later call under ASan while a live setting holds it. "
+        "C16_added_setting_has_no_hook: the setting config_setting_add returns is a new one (no hook, no children), also "
+        "when it replaces a member under the override option; checked on the implementation after every add.",
    note="String lifetime is decided by the correspondence harness only (the functional model has no addresses); "
         "hooks overwritten by config_setting_set_hook are not passed to the destructor (as documented), stated in C16_set_hook.",
    technique="Coq proof (multiset conservation invariant by induction over histories) + correspondence",
